@@ -91,12 +91,12 @@ func (fe functionExpr) CompletionAtPos(ctx context.Context, pos hcl.Pos) []lang.
 					Start: hcl.Pos{
 						Line:   pos.Line, // we don't recover newlines, so we can keep the original line number
 						Byte:   pos.Byte - len(recoveredPrefixBytes),
-						Column: pos.Column - len(recoveredPrefixBytes),
+						Column: pos.Column - columnCount(recoveredPrefixBytes),
 					},
 					End: hcl.Pos{
 						Line:   pos.Line,
 						Byte:   pos.Byte + len(recoveredSuffixBytes),
-						Column: pos.Column + len(recoveredSuffixBytes),
+						Column: pos.Column + columnCount(recoveredSuffixBytes),
 					},
 				}
 
